@@ -154,6 +154,9 @@ type sumKey struct {
 type Outcome struct {
 	S    State
 	Rets string // encoded []Abs
+	// Cells: for closures, the final content facts of the captured variables
+	// the closure stores to (one Abs per free variable, Unknown for the others).
+	Cells string
 }
 
 type summary struct {
@@ -353,6 +356,7 @@ func simpleCell(al *ssa.Alloc) bool {
 					return false
 				}
 				fv := fn.FreeVars[i]
+				writes := false
 				if fr := fv.Referrers(); fr != nil {
 					for _, u := range *fr {
 						if ld, ok := u.(*ssa.UnOp); ok && ld.Op == token.MUL {
@@ -361,8 +365,16 @@ func simpleCell(al *ssa.Alloc) bool {
 						if _, ok := u.(*ssa.DebugRef); ok {
 							continue
 						}
+						if st, ok := u.(*ssa.Store); ok && st.Addr == ssa.Value(fv) {
+							writes = true
+							continue
+						}
 						return false
 					}
+				}
+				if writes && !onlyCalledOrDeferred(r) {
+					// a closure that writes the variable and may run at unknown times
+					return false
 				}
 			}
 		default:
@@ -370,6 +382,58 @@ func simpleCell(al *ssa.Alloc) bool {
 		}
 	}
 	return true
+}
+
+// onlyCalledOrDeferred: the closure value is used only as the callee of direct
+// calls and defer statements of its maker, so it runs exactly where the engine
+// sees it run.
+func onlyCalledOrDeferred(mc *ssa.MakeClosure) bool {
+	refs := mc.Referrers()
+	if refs == nil {
+		return true
+	}
+	for _, r := range *refs {
+		switch u := r.(type) {
+		case *ssa.DebugRef:
+		case *ssa.Call:
+			if u.Call.Value != ssa.Value(mc) {
+				return false
+			}
+		case *ssa.Defer:
+			if u.Call.Value != ssa.Value(mc) {
+				return false
+			}
+		default:
+			return false
+		}
+	}
+	return true
+}
+
+func fvStored(fv *ssa.FreeVar) bool {
+	if fr := fv.Referrers(); fr != nil {
+		for _, u := range *fr {
+			if st, ok := u.(*ssa.Store); ok && st.Addr == ssa.Value(fv) {
+				return true
+			}
+		}
+	}
+	return false
+}
+
+// storedFreeVars lists, per free variable of f, whether f stores to it directly.
+func storedFreeVars(f *ssa.Function) []bool {
+	out := make([]bool, len(f.FreeVars))
+	for i, fv := range f.FreeVars {
+		if fr := fv.Referrers(); fr != nil {
+			for _, u := range *fr {
+				if st, ok := u.(*ssa.Store); ok && st.Addr == ssa.Value(fv) {
+					out[i] = true
+				}
+			}
+		}
+	}
+	return out
 }
 
 func isNilConst(v ssa.Value) bool {
@@ -680,6 +744,11 @@ func (e *Engine) pruneFacts(c *config, b *ssa.BasicBlock) {
 	out := c.facts[:0]
 	for _, f := range c.facts {
 		live := false
+		if fv, ok := f.v.(*ssa.FreeVar); ok && fvStored(fv) {
+			// a captured variable this closure assigns is part of its outcome
+			out = append(out, f)
+			continue
+		}
 		if refs := f.v.Referrers(); refs != nil {
 			for _, ref := range *refs {
 				rb := ref.Block()
@@ -895,6 +964,10 @@ func (e *Engine) stepBlock(c0 *config, sum *summary, isRoot bool) []*config {
 			default:
 				// other instructions: events on non-call instructions
 				if st, ok := instr.(*ssa.Store); ok {
+					if fv, ok := st.Addr.(*ssa.FreeVar); ok {
+						e.id(fv)
+						e.setFact(c, fv, e.eval(c, st.Val))
+					}
 					if al, ok := st.Addr.(*ssa.Alloc); ok && simpleCell(al) {
 						a := e.eval(c, st.Val)
 						if a != Unknown {
@@ -1082,7 +1155,23 @@ func (e *Engine) doReturn(c *config, ret *ssa.Return, sum *summary, isRoot bool)
 			e.violate(c, ret, msg)
 		}
 	}
-	o := Outcome{c.s, encAbs(rets)}
+	o := Outcome{S: c.s, Rets: encAbs(rets)}
+	if len(c.fn.FreeVars) > 0 {
+		st := storedFreeVars(c.fn)
+		any := false
+		cells := make([]Abs, len(st))
+		for i, w := range st {
+			if w {
+				any = true
+				if id, ok := e.ids[c.fn.FreeVars[i]]; ok {
+					cells[i] = c.get(id)
+				}
+			}
+		}
+		if any {
+			o.Cells = encAbs(cells)
+		}
+	}
 	if _, ok := sum.outs[o]; !ok {
 		sum.outs[o] = c
 		e.grew = true
@@ -1298,6 +1387,17 @@ func (e *Engine) doCall(c *config, call ssa.CallInstruction) []*config {
 				rets := DecodeRets(o.Rets)
 				if len(rets) != nres {
 					rets = make([]Abs, nres)
+				}
+				if mc, ok := call.Common().Value.(*ssa.MakeClosure); ok && mc.Fn == f && o.Cells != "" {
+					// the closure stored to captured variables: their content is what the closure left
+					st := storedFreeVars(f)
+					cells := DecodeRets(o.Cells)
+					for i, b := range mc.Bindings {
+						if al, ok := b.(*ssa.Alloc); ok && i < len(st) && st[i] && i < len(cells) && simpleCell(al) {
+							e.id(al)
+							e.setFact(n, al, cells[i])
+						}
+					}
 				}
 				worlds = append(worlds, world{n, rets})
 			}
